@@ -1871,10 +1871,38 @@ class EntityInst(Instance):
 
         port_map: list[Tuple[str, str]] = []
 
-        for port_name in self._entity.ports():
-            port_map.append(
-                (port_name, self._scope.format_target(self._ports[port_name]))
-            )
+        def vector_kind(vec_type):
+            if issubclass(vec_type, Unsigned):
+                return "unsigned"
+            if issubclass(vec_type, Signed):
+                return "signed"
+            return "std_logic_vector"
+
+        for port_name, port in self._entity.ports().items():
+            actual = self._ports[port_name]
+
+            if port.direction().is_input():
+                # typed views (.unsigned/.signed/.bitvector) of the actual need
+                # a type conversion to match the type of the formal
+                port_map.append((port_name, self._scope.format_value(actual)))
+                continue
+
+            formal = port_name
+            root_type = actual._root.type
+
+            if issubclass(root_type, Array):
+                root_type = root_type.elemtype()
+
+            if (
+                issubclass(root_type, BitVector)
+                and issubclass(actual.type, BitVector)
+                and issubclass(port.type, BitVector)
+                and vector_kind(root_type) != vector_kind(port.type)
+            ):
+                # output ports are converted on the formal side
+                formal = f"{vector_kind(root_type)}({port_name})"
+
+            port_map.append((formal, self._scope.format_target(actual)))
 
         line_end = [","] * (len(port_map) - 1) + [""]
 
